@@ -1,11 +1,13 @@
 package main
 
 // c04_instrument.go — `afcheck instrument -repo /repo -out <dir>`: copies the CURRENT
-// memmap.go and mem/file.go, inserts (go/ast) a call verifsched.Point("<func>:<n>+") before every
-// Lock()/RLock() statement and verifsched.Point("<func>:<n>-") after every Unlock()/RUnlock()
-// (deferred unlocks are wrapped in a func literal), writes the copies and the package
-// verifsched (a cooperative scheduler: a no-op unless a run is active) into <dir>, and emits
-// an overlay json that maps the originals to the copies.  Nothing of this exists in the normal
+// memmap.go and mem/file.go, replaces (go/ast) every statement x.Lock() / x.RLock() by
+// verifsched.Lock("<func>:<n>+", x.TryLock, x.Unlock, x.Lock) (TryRLock / RUnlock / RLock for
+// a read lock) — an acquisition under the control of the scheduler — and inserts
+// verifsched.Point("<func>:<n>-") after every Unlock()/RUnlock() (deferred unlocks are wrapped
+// in a func literal, the release Point runs inside the deferred call), writes the copies and
+// the package verifsched (a cooperative scheduler: plain blocking locks unless a run is active)
+// into <dir>, and emits an overlay json that maps the originals to the copies.  Nothing of this exists in the normal
 // harness binary; `afcheck run -prop C04` builds a second binary with the overlay
 // (tags verif,verifsched) from the working tree of /repo on every run.
 
@@ -74,6 +76,23 @@ func pointStmt(label string) ast.Stmt {
 	}}
 }
 
+// x.Lock() -> verifsched.Lock(label, x.TryLock, x.Unlock, x.Lock); RLock: TryRLock, RUnlock, RLock.
+// The receiver expression is a variable or a field selection (no side effects), so naming it
+// three times is harmless.
+func lockStmt(label string, call *ast.CallExpr, name string) ast.Stmt {
+	recv := call.Fun.(*ast.SelectorExpr).X
+	try, unlock := "TryLock", "Unlock"
+	if name == "RLock" {
+		try, unlock = "TryRLock", "RUnlock"
+	}
+	sel := func(m string) ast.Expr { return &ast.SelectorExpr{X: recv, Sel: ast.NewIdent(m)} }
+	return &ast.ExprStmt{X: &ast.CallExpr{
+		Fun: &ast.SelectorExpr{X: ast.NewIdent("verifsched"), Sel: ast.NewIdent("Lock")},
+		Args: []ast.Expr{&ast.BasicLit{Kind: token.STRING, Value: strconv.Quote(label)},
+			sel(try), sel(unlock), sel(name)},
+	}}
+}
+
 type instr struct {
 	fn string
 	n  int
@@ -94,7 +113,7 @@ func (in *instr) list(stmts []ast.Stmt) []ast.Stmt {
 		case *ast.ExprStmt:
 			if name, ok := isLockCall(x.X); ok {
 				if name == "Lock" || name == "RLock" {
-					out = append(out, pointStmt(in.label("+")), s)
+					out = append(out, lockStmt(in.label("+"), x.X.(*ast.CallExpr), name))
 				} else {
 					out = append(out, s, pointStmt(in.label("-")))
 				}
@@ -229,6 +248,11 @@ func c04Instrument(repo, out string, base map[string]string) (string, int, error
 		return "", 0, err
 	}
 	ov[filepath.Join(repo, "verifsched", "sched.go")] = sched
+	raw := filepath.Join(out, "mem_verifsched_raw.go")
+	if err := os.WriteFile(raw, []byte(memSchedRawSrc), 0o644); err != nil {
+		return "", 0, err
+	}
+	ov[filepath.Join(repo, "mem", "zz_verifsched_raw.go")] = raw
 	j, _ := json.MarshalIndent(map[string]any{"Replace": ov}, "", " ")
 	ovp := filepath.Join(out, "overlay.json")
 	if err := os.WriteFile(ovp, j, 0o644); err != nil {
@@ -266,122 +290,3 @@ func c04BuildSched(outDir string) (string, string, error) {
 	return bin, fmt.Sprintf("%d yield points inserted", n), nil
 }
 
-// verifschedSrc: the cooperative scheduler compiled into the instrumented build only.
-const verifschedSrc = `// Package verifsched: GENERATED by afcheck instrument — cooperative scheduler for the
-// instrumented copies of memmap.go and mem/file.go.  While a Run is active exactly one of its
-// goroutines executes; it hands the baton over only at Points.  Points ending in "+" stand
-// before a lock acquisition, "-" after a release; a goroutine yields only while it holds no
-// lock (depth 0), so the baton holder never blocks on a mutex.  Without a Run, Point is a no-op.
-package verifsched
-
-var (
-	active bool
-	cur    = -1
-	depth  []int
-	alive  []bool
-	wake   []chan struct{}
-	done   chan struct{}
-	choose func(enabled []int, label string) int
-	// YieldAfterUnlock also makes the release of the last held lock a choice point
-	YieldAfterUnlock bool
-	// Trace: the goroutine chosen at every choice point with more than one candidate
-	Trace []int
-	// Arity: number of candidates at those points
-	Arity []int
-	// Labels of those points
-	Labels []string
-)
-
-func pick(label string) int {
-	var en []int
-	for g, a := range alive {
-		if a {
-			en = append(en, g)
-		}
-	}
-	if len(en) == 0 {
-		return -1
-	}
-	if len(en) == 1 {
-		return en[0]
-	}
-	g := choose(en, label)
-	Trace = append(Trace, g)
-	Arity = append(Arity, len(en))
-	Labels = append(Labels, label)
-	return g
-}
-
-func yield(label string) {
-	g := cur
-	next := pick(label)
-	if next == g || next < 0 {
-		return
-	}
-	cur = next
-	wake[next] <- struct{}{}
-	<-wake[g]
-}
-
-// Point is called by the instrumented code around lock operations and by the harness
-// between calls (any other label: a plain yield point).
-func Point(label string) {
-	if !active || cur < 0 {
-		return
-	}
-	g := cur
-	switch label[len(label)-1] {
-	case '+':
-		if depth[g] == 0 {
-			yield(label)
-		}
-		depth[g]++
-	case '-':
-		depth[g]--
-		if depth[g] == 0 && YieldAfterUnlock {
-			yield(label)
-		}
-	default:
-		if depth[g] == 0 {
-			yield(label)
-		}
-	}
-}
-
-// Run executes body(0..n-1) as n goroutines of which one runs at a time; ch picks the next
-// goroutine among the candidates at every choice point.
-func Run(n int, body func(g int), ch func(enabled []int, label string) int) {
-	depth = make([]int, n)
-	alive = make([]bool, n)
-	wake = make([]chan struct{}, n)
-	done = make(chan struct{})
-	choose = ch
-	Trace, Arity, Labels = nil, nil, nil
-	for g := 0; g < n; g++ {
-		alive[g] = true
-		wake[g] = make(chan struct{}, 1)
-	}
-	active = true
-	for g := 0; g < n; g++ {
-		go func(g int) {
-			<-wake[g]
-			body(g)
-			alive[g] = false
-			depth[g] = 0
-			next := pick("exit")
-			if next < 0 {
-				close(done)
-				return
-			}
-			cur = next
-			wake[next] <- struct{}{}
-		}(g)
-	}
-	first := pick("start")
-	cur = first
-	wake[first] <- struct{}{}
-	<-done
-	active = false
-	cur = -1
-}
-`
